@@ -92,7 +92,21 @@ def impl(L):
     return getattr(tc, 'type_' + L.lower())
 
 
+def warm_up_with_single_precision(L):
+    """The first data a process converts may be float32: whatever the implementation keeps from that call must not
+    degrade later float64 conversions."""
+    try:
+        th = impl(L)
+        with np.errstate(all='ignore'):
+            th.celsius_to_mv(np.linspace(-250, 1800, 64).astype('f4'))
+            th.mv_to_celsius(np.linspace(-10, 70, 64).astype('f4'))
+    except Exception:
+        pass
+
+
 def run_case(case, ctx):
+    if 't' in case:
+        warm_up_with_single_precision(case['t'])
     {'forward': forward, 'inverse': inverse, 'boundaries': boundaries, 'totality': totality, 'scaling': scaling, 'sizes': sizes}[case['k']](case, ctx)
 
 
